@@ -78,6 +78,24 @@ def run(run):
             case = dict(fcase, op='open', backend=backend)
             run.case(case)
             run.check(all(off + n <= hb for off, n, _ in opened), 'C07.open-header-only', case, opened, f'within [0,{hb})')
+            if backend == 'local':      # ... and so does opening through seismic_zfp.open (the emulator and each of its accessors), for any chunk-cache size
+                import seismic_zfp
+                for K in (None, 1, 4):
+                    eh = CountingFile(data, name=fc.path)
+                    case = dict(fcase, op='seismic_zfp.open', backend=backend, chunk_cache_size=K)
+                    run.case(case)
+                    try:
+                        with env.quiet():
+                            emu = seismic_zfp.open(eh, chunk_cache_size=K)
+                        eopened = eh.take()
+                        run.check(all(off + n <= hb for off, n, _ in eopened), 'C07.open-header-only', case,
+                                  [x for x in eopened if x[0] + x[1] > hb][:6], f'within [0,{hb})')
+                        with env.quiet():
+                            emu.__exit__(None, None, None)
+                    except BaseException as e:
+                        if isinstance(e, (KeyboardInterrupt, SystemExit, MemoryError)):
+                            raise
+                        run.fail('C07.open-header-only', case, f'{type(e).__name__}: {e}', 'opens')
             mask_reads = 0
             items = by_file.get(fi, [])
             if backend == 'blob':
@@ -319,6 +337,16 @@ def replay(run, rep):
     hb, db = fc.F['hblk'] * BLK, fc.layout['data_blocks'] * BLK
     r, h = open_reader(fc, fc.ref.bytes, case.get('backend', 'local'), preload=case.get('preload', False))
     opened = h.take()
+    if case['op'] == 'seismic_zfp.open':
+        import seismic_zfp
+        eh = CountingFile(fc.ref.bytes, name=fc.path)
+        with env.quiet():
+            emu = seismic_zfp.open(eh, chunk_cache_size=case.get('chunk_cache_size'))
+        eopened = eh.take()
+        with env.quiet():
+            emu.__exit__(None, None, None)
+        run.check(all(off + n <= hb for off, n, _ in eopened), rep['clause'], case, [x for x in eopened if x[0] + x[1] > hb][:6], None)
+        return
     if case['op'] == 'open':
         if case.get('preload'):
             dreads = [(off, n) for off, n, _ in opened if off + n > hb]
